@@ -46,7 +46,7 @@ RefApply(o, T) ==
 \* documented prerequisites (the properties quantify over prerequisite-respecting calls only)
 PrereqOK(o, A) ==
   CASE o.name = "boyd_split" -> HeadsMarked(A) /\ OneHead(A)
-    [] o.name = "raising" -> \A x \in A.nodes : x.a.split \in {"T", "F"}
+    [] o.name = "raising" -> (\A x \in A.nodes : x.a.split \in {"T", "F"}) /\ (\A x \in TNodes(A) : x.a.split = "F")
     [] OTHER -> TRUE
 RetRootOps == Structural \cup {"punctuation_delete", "ptb_delete_traces", "insert_terminals",
                                "substitute_terminals"}
